@@ -85,7 +85,10 @@ CLAIMED = {
          "The == path on domain variables and the whole-program lift (labeling order, uniqueness) are not mechanised."),
  "C19": ("Theorems by case analysis on groundness, for all states and operands: all ground = decided exactly; two ground = the third bound to "
          "the unique solution (division exact and divisor non-zero), failure when none exists, constraint kept when every integer works; fewer "
-         "ground = kept (including all three unbound); never a panic outcome.",
+         "ground = kept (including all three unbound); never a panic outcome. Semantically, as posted goals on any state: every solution of "
+         "the returned state solves the original state and satisfies the integer equation (sound), every solution of the original state "
+         "that satisfies the equation solves the returned state, through the re-run of every other stored constraint a binding triggers, and "
+         "failure is returned only when none exists (complete).",
          "6/C19", "Coq proof: exhaustive groundness case analysis of plusz/timesz + arithmetic of the unique solution + all-patterns differential run",
          "Order-freedom relies on run_constraints after every unification (C22's invariant); checked for all posting orders."),
  "C01": ("Theorems for all terms (literals, variables, proper/improper lists, compounds), all prior substitutions and all fuel: on success "
